@@ -6,6 +6,29 @@ import (
 
 func init() {
 	register("16-jsescape-callee", (*gen).jsEscapeCallee)
+	register("16-json-nil-collections", (*gen).jsonNilCollections)
+}
+
+// jsonNilCollections reads whether data.List and data.Map have a MarshalJSON method.  Without one
+// (the pinned tree) encoding/json writes a nil []Value and a nil map as null; the repair
+// notes/pending/C16-json-nil-list.diff adds methods that write [] and {} (Model/JsonEncode.v nil_null).
+func (g *gen) jsonNilCollections() {
+	const rel = "data/value.go"
+	l := g.method(rel, "List", "MarshalJSON") != nil
+	m := g.method(rel, "Map", "MarshalJSON") != nil
+	if l != m {
+		g.fail("data/value.go: exactly one of List and Map has a MarshalJSON method (Model/JsonEncode.v has one flag for both)")
+	}
+	if g.method(rel, "Undefined", "MarshalJSON") == nil || g.method(rel, "Null", "MarshalJSON") == nil {
+		g.fail("data/value.go: Undefined / Null have no MarshalJSON method (Model/JsonEncode.v writes null for both)")
+	}
+	v := "true"
+	if l {
+		v = "false"
+	}
+	g.p("(* data.List / data.Map have no MarshalJSON method: a nil list or map is written as null by json.Marshal *)\n")
+	g.p("Definition json_nil_null : bool := %s.\n\n", v)
+	g.js["json_nil_null"] = !l
 }
 
 // jsEscapeCallee reads WHICH escaper the two places that write the inside of a
